@@ -39,9 +39,11 @@ ModelOut(cfg, in) ==
 
 ---------------------------------------------------------------------------
 \* o: [res, same (outcome, data and error class equal to the raw twin's), typed (rejected with
-\*     the document's own typed error), alloc_kib (bytes allocated during the call, KiB)]
+\*     the document's own typed error), alloc_kib (bytes allocated during the call, KiB), input_kib (size of the encoded input)]
 C12_OK(cfg, in, o) ==
-   /\ (in.pres # "raw" /\ Over(cfg, in)) => (o.res = "reject" /\ o.alloc_kib <= 16 * EffKiB(cfg, in) + 8192)
+   \* "about the limit of decompressed data": the allowance grows with the limit and with the size of the
+   \* presented (still compressed) input, which every parser necessarily copies a few times -- not with the expansion
+   /\ (in.pres # "raw" /\ Over(cfg, in)) => (o.res = "reject" /\ o.alloc_kib <= 16 * EffKiB(cfg, in) + 8192 + 12 * o.input_kib)
    /\ (in.pres # "raw" /\ ~Over(cfg, in)) => o.same
    /\ (in.pres = "raw" \/ ~Over(cfg, in)) => (o.res = (IF in.good THEN "accept" ELSE "reject"))
 C09_OK(cfg, in, o) == o.res \in {"accept", "reject"}
